@@ -34,9 +34,58 @@ func c02Drive(args []string) error {
 	}); err != nil {
 		return err
 	}
+	seed0 := int(seedFromEnv())
 	pool, err := buildPool(argValue(args, "-corpus", "/repo/mp4/testdata"), true)
 	if err != nil {
 		return err
+	}
+	// every box shape of BoxLayouts.tla (versions, flag subsets, counts, boundary values), alone and inside its parent:
+	// decoded objects whose fields sit at the edges of their ranges
+	nLayouts := 0
+	if ip := argValue(args, "-instances", ""); ip != "" {
+		stride := argInt(args, "-instance-stride", 1)
+		k := 0
+		if err := readLines(ip, func(line []byte) error {
+			var e struct {
+				Layout string        `json:"layout"`
+				Ver    int           `json:"ver"`
+				Flags  int           `json:"flags"`
+				Cnt    int           `json:"cnt"`
+				Pick   []interface{} `json:"pick"`
+				Hdr    string        `json:"hdr"`
+				Wrap   string        `json:"wrap"`
+				Bytes  []int         `json:"bytes"`
+			}
+			if err := json.Unmarshal(line, &e); err != nil {
+				return err
+			}
+			if e.Wrap != "none" && e.Wrap != "parent" {
+				return nil
+			}
+			k++
+			if k%stride != seed0%stride {
+				return nil
+			}
+			raw := ints2bytes(e.Bytes)
+			b, err := func() (b mp4.Box, err error) {
+				defer func() {
+					if r := recover(); r != nil {
+						err = fmt.Errorf("panic: %v", r)
+					}
+				}()
+				return mp4.DecodeBox(0, bytes.NewReader(raw))
+			}()
+			if err != nil || b == nil || b.Size() != uint64(len(raw)) {
+				return nil // shapes the decoder refuses (or that are not one box) are C01 / C04 material
+			}
+			name := fmt.Sprintf("layout:%s/v%d/f%x/c%d/%v/%s/%s", e.Layout, e.Ver, e.Flags, e.Cnt, e.Pick, e.Hdr, e.Wrap)
+			pool = append(pool, poolObj{Name: name, Kind: "box", Type: b.Type(), raw: raw,
+				fresh: func() (sizedObj, error) { return mp4.DecodeBox(0, bytes.NewReader(raw)) }})
+			nLayouts++
+			return nil
+		}); err != nil {
+			return err
+		}
 	}
 	perObj := argInt(args, "-per", 4)
 	seed := int(seedFromEnv())
@@ -112,6 +161,7 @@ func c02Drive(args []string) error {
 	rep.Extra["events"] = tw.N
 	rep.Extra["traces"] = tw.T
 	rep.Extra["objects"] = len(pool)
+	rep.Extra["layout_objects"] = nLayouts
 	rep.Extra["object_types"] = len(types)
 	rep.Done()
 	return tw.Close()
